@@ -234,6 +234,10 @@ func encodeFresh(img image.Image, o *webp.EncoderOptions) (out []byte, err error
 
 func main() { Main("c19", run) }
 
+// observe records something no clause of the property (as stated in properties.jsonl) decides:
+// a counter in the evidence, never a violation.
+func observe(c *Ctx, key string) { c.Count("observation:" + key) }
+
 func run(c *Ctx) {
 	c.D.Rule = "an evaluation is one (picture, configuration, placement) encode compared byte-for-byte with the origin placement's output, one kernel (alpha scan / alpha extraction / clean-up / sharp YUV / lossy import) comparison across placements, or one kernel-vs-model case; non-trivial = distinct (picture kind, size class, configuration, placement kind) signatures whose placement differs from the origin one"
 	rng := c.Rng.Fork()
@@ -267,6 +271,7 @@ func run(c *Ctx) {
 					}
 				}
 				var ref []byte
+				originFailed := false
 				for i, pl := range pls {
 					if !c.Thorough() && p.w*p.h > 100 && (pl.name == "sub(1,0)noiseA" || pl.name == "sub(0,1)noiseA" || pl.name == "stride+4") {
 						continue
@@ -276,16 +281,28 @@ func run(c *Ctx) {
 					c.D.Evaluations++
 					rep := map[string]any{"picture": fmt.Sprintf("%s %dx%d", p.kind, p.w, p.h), "pixels_rgba_hex": hex.EncodeToString(p.pix),
 						"config": cf.name, "placement": pl.name}
+					if i == 0 {
+						if pan != "" || err != nil {
+							// the origin placement itself fails: whether Encode may fail here is not C19's subject
+							observe(c, "origin-placement-encode-failed")
+							originFailed = true
+						} else {
+							ref = out
+						}
+						continue
+					}
+					if originFailed {
+						if pan == "" && err == nil {
+							c.Violate("outcome-differs-"+placementClass(pl.name), "Encode fails for the origin placement but succeeds for this placement of the same picture", rep)
+						}
+						continue
+					}
 					if pan != "" {
-						c.Violate("panic-"+placementClass(pl.name), "webp.Encode panicked: "+pan, rep)
+						c.Violate("panic-"+placementClass(pl.name), "webp.Encode succeeds for the origin placement but panics for this placement of the same picture: "+pan, rep)
 						continue
 					}
 					if err != nil {
-						c.Violate("encode-error-"+placementClass(pl.name), "webp.Encode failed: "+err.Error(), rep)
-						continue
-					}
-					if i == 0 {
-						ref = out
+						c.Violate("encode-error-"+placementClass(pl.name), "webp.Encode succeeds for the origin placement but fails for this placement of the same picture: "+err.Error(), rep)
 						continue
 					}
 					c.Count("placement_" + placementClass(pl.name))
@@ -438,19 +455,29 @@ func rgbaSubcheck(c *Ctx, rng *Rand, cfgs []cfgCase) {
 			}
 			for _, cf := range cfgs {
 				outs := make([][]byte, len(pls))
+				failed := make([]string, len(pls))
 				for i, p := range pls {
 					oo := cf.o
 					out, err, pan := encodeFresh(p.img, &oo)
 					c.D.Evaluations++
 					if pan != "" || err != nil {
-						c.Violate("rgba-encode-failed-"+p.name, fmt.Sprintf("webp.Encode failed: %v %s", err, pan),
-							map[string]any{"picture": fmt.Sprintf("premultiplied %s %dx%d", kind, w, h), "premultiplied_rgba_hex": hex.EncodeToString(pm), "config": cf.name, "placement": p.name})
+						failed[i] = fmt.Sprintf("%v %s", err, pan)
 						continue
 					}
 					outs[i] = out
 				}
 				const refIdx = 3 // rgba-wrapper: the generic At() path defines the picture
-				if outs[refIdx] == nil || outs[0] == nil {
+				if outs[refIdx] == nil {
+					observe(c, "rgba-reference-encode-failed")
+					continue
+				}
+				for i, p := range pls {
+					if failed[i] != "" {
+						c.Violate("rgba-encode-failed-"+p.name, "Encode succeeds through the generic At() path but fails for this placement of the same premultiplied picture: "+failed[i],
+							map[string]any{"picture": fmt.Sprintf("premultiplied %s %dx%d", kind, w, h), "premultiplied_rgba_hex": hex.EncodeToString(pm), "config": cf.name, "placement": p.name})
+					}
+				}
+				if outs[0] == nil {
 					continue
 				}
 				mode := "lossy"
@@ -497,7 +524,11 @@ func rgbaSubcheck(c *Ctx, rng *Rand, cfgs []cfgCase) {
 				cmp(7, refIdx, fmt.Sprintf("rgba-generic-origin-bytes-differ-%s-%s", mode, al), "premultiplied source through the generic At() path: bounds at (3,5) vs at the origin")
 				// (b) fast path vs the generic At() path, and vs an NRGBA holding the converted picture
 				cmp(0, refIdx, fmt.Sprintf("rgba-fastpath-vs-generic-%s%s%s-%s", mode, ex, sh, al), "premultiplied source: *image.RGBA fast path vs generic At() path")
-				cmp(4, refIdx, fmt.Sprintf("rgba-converted-nrgba-vs-generic-%s%s%s-%s", mode, ex, sh, al), "NRGBA holding NRGBAModel.Convert(At) vs generic At() path of the RGBA source")
+				// an NRGBA holding NRGBAModel.Convert(At) is a different image (different colour values through At):
+				// "the same colours" of the property does not obviously cover it -> observation only
+				if outs[4] != nil && !bytes.Equal(outs[4], outs[refIdx]) {
+					observe(c, "rgba-converted-nrgba-differs-from-generic")
+				}
 			}
 			for i := range pls {
 				if sum(pls[i].back) != sums[i] {
@@ -584,9 +615,8 @@ func kernels(c *Ctx, p *picture, pls []*placement) {
 		for i := range ref {
 			c.D.Evaluations++
 			if got[i].val != ref[i].val {
-				c.Violate("kernel-"+ref[i].name+"-"+placementClass(pl.name), "import kernel result depends on the placement",
-					map[string]any{"picture": fmt.Sprintf("%s %dx%d", p.kind, p.w, p.h), "pixels_rgba_hex": hex.EncodeToString(p.pix),
-						"placement": pl.name, "origin": trunc(ref[i].val), "got": trunc(got[i].val)})
+				// internal kernels are not the property's observable (bytes of Encode are): count only
+				observe(c, "kernel-"+ref[i].name+"-depends-on-placement-"+placementClass(pl.name))
 			}
 		}
 	}
@@ -668,7 +698,13 @@ func modelCases(c *Ctx, rng *Rand) {
 			}()
 			return f()
 		}
-		c.Count(map[bool]string{true: "model_invalid_placement", false: "model_valid_placement"}[invalid])
+		if invalid {
+			// outside the property's domain (not a valid placement): what the code does with it -
+			// fall back, panic, early exit - may change freely; no correspondence case
+			observe(c, "invalid-placement-not-compared")
+			continue
+		}
+		c.Count("model_valid_placement")
 		c.Case("rootalpha "+head, safe(func() string { return b2s(webp.VerifImageHasAlpha(im)) }))
 		c.Case("alpha "+head, safe(func() string { return hex.EncodeToString(webp.VerifExtractAlpha(im)) }))
 		c.D.Evaluations += 2
@@ -684,19 +720,12 @@ func modelCases(c *Ctx, rng *Rand) {
 				}
 			}
 			if noZero {
-				c.Case("cleanup "+head, safe(func() string { return hex.EncodeToString(webp.VerifCleanupTransparentAreaLossy(im)) }))
-				c.D.Evaluations++
+				observe(c, "cleanup-copy-kernel-not-compared") // internal buffer, not an observable of the property
 			}
 			// the lossy package's kernels have no validNRGBA guard and run in goroutines: valid placements only
 			c.Case("lossyalpha "+head, safe(func() string { return b2s(webp.VerifLossyImageHasAlpha(im)) }))
-			c.Case("yplane "+head, safe(func() string {
-				y, _, _, ys, _, pw, ph := webp.VerifLossyImportPlanes(im, 0, 0)
-				var sb strings.Builder
-				for r := 0; r < ph; r++ {
-					sb.WriteString(hex.EncodeToString(y[r*ys : r*ys+pw]))
-				}
-				return sb.String()
-			}))
+			// the luma plane depends on the RGB->Y formula, which the property does not fix: not compared
+			// with the model (the placement independence of the planes is an observation in kernels())
 			// lossless import observed through an Exact lossless round trip (method 3: away from the
 			// known decoder defect with <= 16 colours at method >= 5)
 			c.Case("argb "+head, safe(func() string {
